@@ -153,6 +153,13 @@ impl Rig {
 		(l, r)
 	}
 
+	/// Runs only `on_start_processing` (no frames): publishes the audio thread's state (clock times,
+	/// sound positions) to the handles. Equivalent to the next callback's first half happening early.
+	pub fn sync(&mut self) {
+		let r = self.renderer.as_mut().expect("renderer");
+		r.on_start_processing();
+	}
+
 	pub fn change_sample_rate(&mut self, sr: u32) {
 		self.cfg.sample_rate = sr;
 		self.renderer.as_mut().unwrap().on_change_sample_rate(sr);
